@@ -130,7 +130,10 @@ def generate(seed, tier):
             elif which == "alpha":
                 spec["alpha"] = round(min(2.0, max(0.01, spec["alpha"] * rw.choice([0.5, 0.9, 1.1]))), 4)
             elif which == "fmax":
-                spec["fmax"] = spec["fmax"] * 0.8
+                if spec["fmax"] * 0.8 > spec["fmin"] * 1.1:
+                    spec["fmax"] = spec["fmax"] * 0.8
+                else:
+                    spec["fmin"] = spec["fmin"] * 0.5        # narrow band: keep it a band (fmax > fmin), move the other corner
             else:
                 spec[which] = spec[which] * rw.choice([0.5, 0.9])
             spec["cousin_of"] = src
